@@ -231,6 +231,20 @@ class VRef(V):
     return 'VRef(%s:%r)' % (self.t, self.ty)
 
 
+class VOldRef(VRef):
+  """old(e) for a container e: the same object (identity comparisons use .t) viewed with the contents
+  it had in the old state -- membership, length, items and keys are read from `heap`, not from the
+  heap of the context the value is used in."""
+
+  def __init__(self, t, ty, heap):
+    VRef.__init__(self, t, ty)
+    self.heap = heap
+
+
+def heap_of(v, cx):
+  return getattr(v, 'heap', None) or cx.heap
+
+
 class VSetExpr(V):
   """Spec-mode set: a membership predicate (closure over a U term)."""
 
